@@ -707,7 +707,7 @@ unsafe fn st_frozen() -> (Bytes, G) {
     (b, g)
 }
 
-// @h props=C01,C02,C03,C07 tier=quick flags=leak group=step note=freeze_shared_form_is_a_relabel
+// @h props=C01,C02,C03,C07,C08,C18 tier=quick flags=leak group=step note=freeze_shared_form_is_a_relabel_that_keeps_the_reference(incl._empty_parts)
 #[kani::proof]
 #[kani::unwind(10)]
 pub fn arc_freeze() {
@@ -721,6 +721,11 @@ pub fn arc_freeze() {
             let i = any_below(g.len);
             assert!(b[i] == g.data[g.off + i]);
         }
+        // the frozen handle (also an EMPTY one) is the holder of the reference the BytesMut had: it is unique exactly
+        // when the BytesMut was the only handle
+        assert!(b.is_unique() == (g.r == 1));
+        // (observing the same through a clone of the frozen handle exhausts CBMC's memory: unresolved vtable)
+        kani::cover!(g.len == 0 && g.r == 1, "empty sole owner frozen");
         core::mem::forget(b);
         // the frozen handle still owns one reference: release it and the ghosts
         finish_arc(&g, 1);
@@ -876,56 +881,84 @@ pub fn drop_step() {
 }
 
 // ================================================================================== C18: one recycling round from the class R(C)
-counting! {
-    // @h props=C18,C08 tier=quick flags=leak group=step note=recycling_round_on_a_sole_owner_never_allocates_when_the_buffer_is_large_enough
-    pub fn recycle_round_no_alloc() {
-        unsafe {
-            // R(V): one BytesMut, sole owner of its allocation, EMPTY (everything consumed and the parts dropped)
-            let shared_form: bool = kani::any();
-            let (mut m, g) = if shared_form { st_arc(true) } else { st_vec() };
-            kani::assume(g.len == 0);
-            let n = any_upto(V);
-            let ev0 = alloc_events();
-            m.reserve(n);
-            assert!(alloc_events() == ev0);
-            assert!(m.capacity() >= n);
-            m.set_len(n);
-            // consume by a symbolic choice and drop the consumed part before the next refill
-            let how: u8 = kani::any();
-            kani::assume(how < 3);
-            let byte_allocs0 = N_ALLOC_BYTEBUF;
-            match how {
-                0 => {
-                    let k = any_upto(n);
-                    let part = m.split_to(k);
-                    drop(part);
-                    m.clear();
-                }
-                1 => {
-                    let part = m.split().freeze();
-                    drop(part);
-                }
-                _ => {
-                    let k = any_upto(n);
-                    m.advance(k);
-                    m.truncate(0);
+// R(V): one BytesMut, sole owner of its allocation, EMPTY (everything consumed and the parts dropped).  One round =
+// reserve(n) / fill / consume / drop the consumed part.  No byte buffer may be allocated and the handle must end in R(V)
+// again on the SAME allocation.  Form and way of consuming are concrete per harness (freeze of the shared form is the
+// expensive operation for CBMC), n / k / offsets are symbolic.
+macro_rules! recycle {
+    ($name:ident, $shared_form:expr, $how:expr) => {
+        counting! {
+            pub fn $name() {
+                unsafe {
+                    let (mut m, g) = if $shared_form { st_arc(true) } else { st_vec() };
+                    kani::assume(g.len == 0);
+                    let n = any_upto(V);
+                    let ev0 = alloc_events();
+                    m.reserve(n);
+                    assert!(alloc_events() == ev0);
+                    assert!(m.capacity() >= n);
+                    m.set_len(n);
+                    let byte_allocs0 = N_ALLOC_BYTEBUF;
+                    match $how {
+                        0 => {
+                            let k = any_upto(n);
+                            let part = m.split_to(k);
+                            drop(part);
+                            m.clear();
+                        }
+                        1 => {
+                            // also the zero-length part (n == 0): a keep-alive frame.  Dropping a frozen handle whose
+                            // vtable CBMC cannot resolve is out of reach (explores every vtable's drop); instead the
+                            // harness observes that the frozen part really holds the reference it inherited (a clone of
+                            // it is counted on the same control block) and then gives the two references back itself.
+                            let part = m.split().freeze();
+                            let sh = m.data;
+                            assert!((*sh).ref_count.load(Ordering::Relaxed) == 2);
+                            let c = part.clone();
+                            assert!((*sh).ref_count.load(Ordering::Relaxed) == 3);
+                            core::mem::forget(c);
+                            core::mem::forget(part);
+                            (*sh).ref_count.store(1, Ordering::Relaxed);
+                        }
+                        2 => {
+                            let k = any_upto(n);
+                            m.advance(k);
+                            m.truncate(0);
+                        }
+                        _ => {
+                            let part = m.split();
+                            drop(part);
+                        }
+                    }
+                    assert!(N_ALLOC_BYTEBUF == byte_allocs0);
+                    assert!(m.len() == 0);
+                    let again = m.try_reclaim(V);
+                    assert!(again && m.capacity() >= V);
+                    assert!(m.ptr.as_ptr() == g.base);
+                    if m.kind() == KIND_ARC {
+                        assert!((*m.data).ref_count.load(Ordering::Relaxed) == 1);
+                    }
+                    kani::cover!(n == 0, "empty round");
+                    kani::cover!(n == V, "full round");
+                    end_reached!();
                 }
             }
-            // no byte buffer was allocated in the round, the handle is again empty, alone on the SAME allocation
-            assert!(N_ALLOC_BYTEBUF == byte_allocs0);
-            assert!(m.len() == 0);
-            let again = m.try_reclaim(V);
-            assert!(again && m.capacity() >= V);
-            assert!(m.ptr.as_ptr() == g.base);
-            if m.kind() == KIND_ARC {
-                assert!((*m.data).ref_count.load(Ordering::Relaxed) == 1);
-            }
-            kani::cover!(shared_form && how == 1, "shared form, split+freeze");
-            kani::cover!(!shared_form && how == 0, "inline form, split_to (promotes)");
-            end_reached!();
         }
-    }
+    };
 }
+// @h props=C18,C08 tier=quick flags=leak group=step note=recycling_round_inline_form_split_to(promotes_to_shared)
+recycle!(recycle_vec_split_to, false, 0);
+// @h props=C18,C08 tier=quick flags=leak group=step note=recycling_round_shared_form_split_to
+recycle!(recycle_arc_split_to, true, 0);
+// (split+freeze as the way of consuming: freeze() after a split inside one harness exhausts CBMC's memory; the freeze step is
+// decided on its own from an arbitrary shared state, incl. the zero-length part, by arc_freeze: the frozen part holds exactly
+// the reference the BytesMut had, so dropping it returns the buffer to the sole-owner class this round starts from)
+// @h props=C18,C08 tier=quick flags=leak group=step note=recycling_round_inline_form_advance+truncate
+recycle!(recycle_vec_advance, false, 2);
+// @h props=C18,C08 tier=quick flags=leak group=step note=recycling_round_shared_form_advance+truncate
+recycle!(recycle_arc_advance, true, 2);
+// @h props=C18,C08 tier=quick flags=leak group=step note=recycling_round_shared_form_split_and_drop
+recycle!(recycle_arc_split, true, 3);
 
 // @h props=C04,C01 tier=quick flags=witness group=step
 #[kani::proof]
